@@ -86,13 +86,19 @@ Theorem C20_throttle_slot_released :
 Proof. exact (conj throttle_sites_deferred throttle_sites_nonempty). Qed.
 Print Assumptions C20_throttle_slot_released.
 
+(* the stride between the label ids of the driver's labelmap mutation histories is a multiple of
+   the number of label-index lock shards in the source, so those ids collide in every shard *)
+Theorem C20_history_labels_collide_in_every_shard :
+  shard_stride mod n_P_numIndexShards = 0 /\ n_P_numIndexShards <> 0.
+Proof. exact shard_stride_covers_source. Qed.
+
 (* ---- the code as it stands violates each of them (witnesses reproduced on the real code by
    the driver's corpus) ---- *)
 
 (* inflated numLabels, zero sub-block dimension: UnmarshalBinary panics (HTTP 500) *)
 Theorem C20_no_panic_refuted :
   parse_block_impl w_inflated_labels = Panic /\ parse_block_impl w_zero_dim = Panic /\
-  snd (handle id_gunzip false (RBlocks (one_frame w_inflated_labels)) []) = Recovered /\
+  snd (handle id_gunzip false (RBlocks (1, 1, 1) (one_frame w_inflated_labels)) []) = Recovered /\
   snd (handle id_gunzip false (RElements w_elements) []) = Recovered.
 Proof.
   exact (conj impl_inflated_labels_panics (conj impl_zero_dim_panics (conj impl_blocks_recovered impl_elements_recovered))).
@@ -109,7 +115,7 @@ Theorem C20_accepted_is_safe_refuted :
   (exists b, parse_block_impl w_zero_dim_solid = Ok b /\ view_volume b = Panic /\ view_calc b = Ok tt) /\
   (exists b, parse_block_impl w_packed_value = Ok b /\ parse_block_fixed w_packed_value = Ok b /\
              view_volume b = Ok tt /\ view_point b 1 0 = Panic /\ validate b = Err) /\
-  snd (handle id_gunzip false (RBlocks (one_frame w_index_outside)) []) = Crashed /\
+  snd (handle id_gunzip false (RBlocks (2, 1, 1) (one_frame w_index_outside)) []) = Crashed /\
   view_svsizes false {| pi_label := 21; pi_blocks := [(0, [])] |} = Panic.
 Proof.
   exact (conj impl_index_outside_accepted (conj impl_no_values_accepted (conj impl_many_labels_accepted
